@@ -8,7 +8,13 @@ says the ideal cursor splits the content of `a` at the concrete index.
 
 Quantifiers: every array state satisfying the invariant (any fill level, any capacity), every
 iterator-driving program over next/remove/add/replace/index — not only contract-respecting ones —
-every element, every allocator schedule, every growth function. -/
+every element, every allocator schedule, every growth function.
+
+The zip theorems speak of two *distinct* arrays (`Arr.ZSim a1 a2`).  The library also accepts the same
+array on both sides; the model then threads one state through both halves of each call
+(`Arr.zipRemove1/zipAdd1/zipReplace1`), the correspondence check drives such iterators against the ideal
+list, and `C08Array.zipAdd_same_array_all_or_nothing` proves the one clause that matters there (two
+elements or none, invariant kept — A11).  There is no ideal-cursor theorem for aliased zips. -/
 namespace CC.Properties.C07Array
 open CC
 open CC.Spec.Seq (IterOp Cursor ZipCursor Out ZipOp ZOut)
